@@ -40,7 +40,7 @@ def _scratch(repo, workdir, names):
     return dst, unique
 
 
-def _run_one(crate, name, only=None, timeout=1500, stride=1, unique=''):
+def _run_one(crate, name, only=None, timeout=1500, stride=1, unique='', full=False):
     exe, files, log = scratchcrate.build_test(crate, unique, ['--test', 'verif_grid_%s' % name], timeout=timeout)
     try:
         if not exe:
@@ -48,6 +48,7 @@ def _run_one(crate, name, only=None, timeout=1500, stride=1, unique=''):
         env = dict(os.environ)
         env['VERIF_GRID_ONLY'] = only or ''
         env['VERIF_GRID_STRIDE'] = str(stride)
+        env['VERIF_GRID_FULL'] = '1' if full else '0'   # thorough tier: the families of cases that are sampled otherwise run in full
         p = subprocess.run([exe, '--nocapture', '--test-threads=1'], cwd=crate, env=env, stdout=subprocess.PIPE, stderr=subprocess.STDOUT, text=True, timeout=timeout)
         out = p.stdout
     finally:
@@ -59,7 +60,7 @@ def _run_one(crate, name, only=None, timeout=1500, stride=1, unique=''):
     return out, fails, done
 
 
-def run(pid, gspec, repo, workdir, stride=1):
+def run(pid, gspec, repo, workdir, stride=1, full=False):
     names = gspec['sets']
     crate, unique = _scratch(repo, workdir, names)
     t0 = time.time()
@@ -67,7 +68,7 @@ def run(pid, gspec, repo, workdir, stride=1):
     try:
         for n in names:
             try:
-                out, fails, done = _run_one(crate, n, stride=stride, unique=unique)
+                out, fails, done = _run_one(crate, n, stride=stride, unique=unique, full=full, timeout=7200 if full else 1500)
             except subprocess.TimeoutExpired:
                 raise Undecided('grid %s: wall-clock cap exceeded' % n)
             if not done:
@@ -76,7 +77,7 @@ def run(pid, gspec, repo, workdir, stride=1):
             cases = int(done.group(2))
             if cases == 0:
                 raise Undecided('grid %s ran zero cases (vacuous)' % n)
-            per[n] = {'cases': cases, 'fails': int(done.group(3)), 'stride': stride}
+            per[n] = {'cases': cases, 'fails': int(done.group(3)), 'stride': stride, 'sampled_families_in_full': bool(full)}
             for f in fails[:3]:
                 failures.append({'unit': 'grid', 'fn': 'grid::' + n, 'clause': f['case'], 'obligation': 'grid::%s::%s' % (n, f['case']),
                                  'message': 'bounded stand-in: the property statement does not hold on the real code for this input: ' + f['what'],
@@ -87,7 +88,7 @@ def run(pid, gspec, repo, workdir, stride=1):
         shutil.rmtree(crate, ignore_errors=True)
         scratchcrate.cleanup(unique)
     return {'unit': 'grid', 'backend': 'bounded-grid', 'failures': failures, 'per_grid': per, 'wall_s': round(time.time() - t0, 2),
-            'bound': gspec.get('bound', '') + (' - SAMPLED in this run: of every family of cases the first four and then every %d-th' % stride if stride > 1 else ''),
+            'bound': gspec.get('bound', '') + (' - THOROUGH: the families of cases that the quick tier samples (a rotating n-th of the longest sequences) ran in full' if full else '') + (' - SAMPLED in this run: of every family of cases the first four and then every %d-th' % stride if stride > 1 else ''),
             'cmd': 'cargo test --offline --test verif_grid_<name> -- --nocapture (scratch copy of the tree + grid/<name>.rs + grid/common.rs)'}
 
 
@@ -98,7 +99,7 @@ def replay(rep, repo):
     unique = None
     try:
         crate, unique = _scratch(repo, wd, [fi['grid']])
-        out, fails, done = _run_one(crate, fi['grid'], only=fi['case'], unique=unique)
+        out, fails, done = _run_one(crate, fi['grid'], only=fi['case'], unique=unique, full=True)
     finally:
         shutil.rmtree(wd, ignore_errors=True)
         if unique:
